@@ -607,7 +607,7 @@ func clip(s string) string {
 // Alphabet is the adversarial 14-symbol alphabet (some symbols are several bytes).
 var Alphabet = []string{"\x00", "\x1f", `"`, `\`, "/", "<", "&", "\x7f", "\u2028", "é", "\xff", "\xc3", "\xed\xa0\x80", "a"}
 
-// Words returns all strings of at most two symbols (211).
+// Words returns all strings of at most two symbols (211) plus ExtraWords.
 func Words() []string {
 	w := []string{""}
 	w = append(w, Alphabet...)
@@ -616,8 +616,15 @@ func Words() []string {
 			w = append(w, a+b)
 		}
 	}
+	// texts that look like the serialiser's own escapes, and white space at the
+	// ends (a serialiser that post-processes its output or tidies texts)
+	w = append(w, ExtraWords...)
 	return w
 }
+
+// ExtraWords are longer adversarial texts appended to Words().
+var ExtraWords = []string{"\\u003c", "\\u003e", "\\u0026", "\\\\u003c", "x\\u0026y", "\\n", "\\\"", "&lt;",
+	" ", "  ", " a", "a ", " a ", "a\n", "\na", "a\r\n", "\ta\t", "a\x00", "\x00a", "null", "true", "[]", "{}", "\"\"", "a,b", "a\":\"b"}
 
 // field indices
 const (
